@@ -73,6 +73,35 @@ func rulePublishedBytes(r *Report) {
 						if callee.Blocks == nil || !r.E.InModule(callee) {
 							continue
 						}
+						// a helper that encodes into (a sub-slice of) its parameter — RecordList.SetBlock(pos, blk)
+						for i, a := range c.Args {
+							if c.IsInvoke() || i >= len(callee.Params) || !isByteSlice(a.Type()) || !isPub(a) {
+								continue
+							}
+							par := ssa.Value(callee.Params[i])
+							writes := false
+							eachInstr(callee, func(y ssa.Instruction) {
+								switch w := y.(type) {
+								case ssa.CallInstruction:
+									wn := cname(w)
+									wa := w.Common().Args
+									if strings.HasPrefix(wn, "(encoding/binary.littleEndian).PutUint") && len(wa) > 1 && derives(wa[1], flowOpts{}, func(v ssa.Value) bool { return v == par }) {
+										writes = true
+									}
+									if wn == "builtin.copy" && derives(wa[0], flowOpts{}, func(v ssa.Value) bool { return v == par }) {
+										writes = true
+									}
+								case *ssa.Store:
+									if ia, ok := w.Addr.(*ssa.IndexAddr); ok && derives(ia.X, flowOpts{}, func(v ssa.Value) bool { return v == par }) {
+										writes = true
+									}
+								}
+							})
+							if writes {
+								bad = true
+								r.Bad(rule, "(*Index)."+m+"/"+shortFunc(callee)+"-writes-arg", x.Pos(), shortFunc(callee)+" encodes into the byte slice it is given, and is given a published record list: concurrent readers (Get after releasing bucketLk, Flush) see torn or changing entries, and a list already handed to a flush changes under it")
+							}
+						}
 						fx := la.paramContentFx(callee)
 						off := 0
 						if c.IsInvoke() {
